@@ -20,6 +20,8 @@ M = [
     ("c02_qos3", "C02", "packet/publish.go", "\tif !p.Message.QOS.Successful() {\n\t\treturn total, makeError(PUBLISH, \"invalid QOS level (%d)\", p.Message.QOS)", "\tif false {\n\t\treturn total, makeError(PUBLISH, \"invalid QOS level (%d)\", p.Message.QOS)"),
     ("c02_will_alias", "C02", "packet/connect.go", "c.Will.Payload, n, err = readLPBytes(src[total:], true, CONNECT)", "c.Will.Payload, n, err = readLPBytes(src[total:], false, CONNECT)"),
     ("c02_suback_code", "C02", "packet/suback.go", "\t\tif !returnCode.Successful() && returnCode != QOSFailure {\n\t\t\treturn total, makeError(SUBACK, \"invalid return code %d\", returnCode)", "\t\tif false {\n\t\t\treturn total, makeError(SUBACK, \"invalid return code %d\", returnCode)"),
+    ("c02_unsub_noreset", "C02", "packet/unsubscribe.go", "\tu.Topics = u.Topics[:0]\n", "\t_ = u.Topics[:0]\n"),
+    ("c02_suback_noreset", "C02", "packet/suback.go", "\ts.ReturnCodes = make([]QOS, 0, rcl)\n", "\tif s.ReturnCodes == nil {\n\t\ts.ReturnCodes = make([]QOS, 0, rcl)\n\t}\n"),
     # ---- C04
     ("c04_hash_parent", "C04 C05 C06 C11", "topic/tree.go", "if child, ok := node.children[t.wildcardSome]; ok && len(child.values) > 0 {", "if child, ok := node.children[t.wildcardSome]; ok && len(child.values) > 0 && topic != topicEnd {"),
     ("c04_search_plus_parent", "C04 C11", "topic/tree.go", "\t// continue with all children\n\tif segment == t.wildcardOne {\n", "\t// continue with all children\n\tif segment == t.wildcardOne {\n\t\tif len(node.values) > 0 {\n\t\t\tif !fn(node.values) {\n\t\t\t\treturn\n\t\t\t}\n\t\t}\n"),
